@@ -30,6 +30,9 @@ B = [
     'pub fn twice(n: String) {\n  n\n}\n',
     'pub fn twice(n) {\n  n +\n',
     'pub type T {\n  T(v: String)\n}\n\npub fn one() {\n  "s"\n}\n\npub fn twice(n) {\n  n\n}\n',
+    # a private function declared BEFORE the public one, mutually recursive with it, labelled arguments passed in the other order: the types of the
+    # group must not depend on the order in which the definitions were interned (which module was asked first, which function was added by an edit)
+    'fn helper(n) {\n  twice(second: n, first: "x") + 1\n}\n\npub fn twice(first a: String, second b: Int) {\n  helper(b)\n}\n',
 ]
 L = [
     'pub fn one() {\n  1\n}\n',
@@ -110,7 +113,8 @@ def describe(states):
 MODES = [('queries after every change', lambda n: [True] * (n + 1), False, False),
          ('no query before the last change', lambda n: [False] * n + [True], False, False),
          ('queries only at the start and at the end, layout re-sent with every change', lambda n: [True] + [False] * (n - 1) + [True] if n else [True], True, False),
-         ('queries after every change, every changed text queued twice in its Change (an intermediate text first)', lambda n: [True] * (n + 1), False, True)]
+         ('queries after every change, every changed text queued twice in its Change (an intermediate text first)', lambda n: [True] * (n + 1), False, True),
+         ('queries after every change, every unchanged file edited and restored inside the Change (a draft text, then the text it had)', lambda n: [True] * (n + 1), False, 'undo')]
 
 
 def run_history(oracle, states):
